@@ -3,7 +3,7 @@
 Oracle: numpy on the *decoded* operands (to_array() of each operand).  The relative
 alignment of the two operands' run boundaries is constructed, not hoped for."""
 import numpy as np
-from ..core import CTX, attempt, held, violated, undefined, same_array, short
+from ..core import CTX, attempt, held, violated, undefined, same_array, short, scribble
 from .. import gen, contracts, rl
 
 PROP = "C16"
@@ -168,6 +168,8 @@ def run(case):
     c = rl.canonical(g, joined=joined)
     if c:
         return violated("%s is not canonical: %s" % (desc, c), tags + ["not-canonical"])
+    scribble(d.value)
+    scribble(dv)
     CTX.tick("c16:operands-unchanged")
     if not snap_same(snapshot(r), before) or (rw is not None and not snap_same(snapshot(rw), before2)):
         return violated("%s modified an operand" % desc, tags)
